@@ -98,4 +98,204 @@ example : predictMean [(1, 0), (3, 2), (-1, 1/2)] [0, 1, 2] = some 1 := by decid
 example : predictStd (-5) [(0, -4), (2, -4)] [0, 1] = some ⟨1, 0⟩ ∧
     predictDis (-5) [(0, -4), (2, -4)] [0, 1] = some ⟨1, 0, 1⟩ := by decide +kernel
 
+/-! ## Blocks of trees per job, the vectorised batch, the floor, the `d` acquisitions -/
+
+/-- **C18 (any partition of the trees into blocks).**  However `Parallel(n_jobs=…)` hands the trees
+to its workers — `blocks` = the tree indices each worker (or joblib batch) handled, in its own
+order — and whether a worker adds tree by tree under the lock (the code: the flat fold over
+`blocks.flatten`) or reduces its block locally first (`predict…Blocks`), all three forms return
+what the sequential `n_jobs = 1` loop returns, **provided every tree is in exactly one block**. -/
+theorem C18_blocks (minVar : Rat) (trees : List TreeOut) (blocks : List (List Nat)) (hn : trees ≠ [])
+    (hp : PartitionOK trees.length blocks) :
+    predictMeanBlocks trees blocks = predictMean trees (List.range trees.length) ∧
+    predictStdBlocks minVar trees blocks = predictStd minVar trees (List.range trees.length) ∧
+    predictDisBlocks minVar trees blocks = predictDis minVar trees (List.range trees.length) ∧
+    predictMean trees blocks.flatten = predictMean trees (List.range trees.length) ∧
+    predictStd minVar trees blocks.flatten = predictStd minVar trees (List.range trees.length) ∧
+    predictDis minVar trees blocks.flatten = predictDis minVar trees (List.range trees.length) := by
+  have hid : OrderOK trees.length (List.range trees.length) := List.Perm.refl _
+  have h := C18_order minVar trees blocks.flatten (List.range trees.length) hn hp hid
+  rw [predictMeanBlocks_flat, predictStdBlocks_flat, predictDisBlocks_flat]
+  exact ⟨h.1, h.2.1, h.2.2, h.1, h.2.1, h.2.2⟩
+
+/-- the hypothesis is needed: 5 trees over 4 jobs in slices of `5 / 4 = 1`, the remainder dropped
+(tree 4 in no block) — mean and variance change; a tree in two blocks likewise -/
+example : predictStdBlocks 0 [(1, 0), (1, 0), (1, 0), (1, 0), (6, 0)] [[0], [1], [2], [3]]
+      = some ⟨4/5, 4/25⟩ ∧
+    predictStd 0 [(1, 0), (1, 0), (1, 0), (1, 0), (6, 0)] [0, 1, 2, 3, 4] = some ⟨2, 4⟩ ∧
+    predictStdBlocks 0 [(1, 0), (3, 0)] [[0, 1], [1]] = some ⟨7/2, 0⟩ := by decide +kernel
+example : PartitionOK 5 [[3, 0], [], [4, 1, 2]] := by unfold PartitionOK OrderOK; decide
+example : predictDisBlocks (1/10) [(1, 0), (3, 2), (-1, 1/2)] [[2], [], [0, 1]]
+    = some ⟨1, 13/15, 8/3⟩ := by decide +kernel
+
+/-- **C18 (the batch is handled row by row).**  The code is vectorised over the query rows
+(`np.zeros((n_outputs, len(X)))` accumulators, element-wise `+=`).  For every batch in which each tree
+answers every row (`hlen`), each of the three forms returns one value per row, and the value at row `j`
+is exactly the single-point model on column `j` (what the trees say about query `j`): no row is
+dropped, duplicated or mixed with another, whatever the batch length and the accumulation order.
+All single-point theorems (`C18_mean`, `C18_total`, `C18_nonneg`, `C18_order`) therefore hold row-wise. -/
+theorem C18_batch (minVar : Rat) (nrows : Nat) (trees : List TreeRows) (order o' : List Nat)
+    (hn : trees ≠ []) (hlen : ∀ t ∈ trees, t.length = nrows)
+    (ho : OrderOK trees.length order) (ho' : OrderOK trees.length o') :
+    ∃ ms ss ds, predictMeanBatch nrows trees order = some ms ∧
+      predictStdBatch minVar nrows trees order = some ss ∧
+      predictDisBatch minVar nrows trees order = some ds ∧
+      ms.length = nrows ∧ ss.length = nrows ∧ ds.length = nrows ∧
+      ∀ j, j < nrows → ms[j]? = predictMean (col j trees) o' ∧
+        ss[j]? = predictStd minVar (col j trees) o' ∧ ds[j]? = predictDis minVar (col j trees) o' := by
+  obtain ⟨⟨ms, hm, hml⟩, ⟨ss, hs, hsl⟩, ⟨ds, hd, hdl⟩⟩ := batch_lengths minVar nrows trees order hn hlen
+  refine ⟨ms, ss, ds, hm, hs, hd, hml, hsl, hdl, ?_⟩
+  intro j hj
+  have h1 := predictMeanBatch_row nrows trees order o' hn hlen ho ho' j hj
+  have h2 := predictStdBatch_row minVar nrows trees order o' hn hlen ho ho' j hj
+  have h3 := predictDisBatch_row minVar nrows trees order o' hn hlen ho ho' j hj
+  rw [hm] at h1; rw [hs] at h2; rw [hd] at h3
+  exact ⟨h1, h2, h3⟩
+
+/-- consequence: the prediction at a query does not depend on the other rows of the batch -/
+theorem C18_batch_row_local (minVar : Rat) (n n' : Nat) (trees trees' : List TreeRows) (o o' : List Nat)
+    (hn : trees ≠ []) (hlen : ∀ t ∈ trees, t.length = n) (hlen' : ∀ t ∈ trees', t.length = n')
+    (hl : trees'.length = trees.length)
+    (ho : OrderOK trees.length o) (ho' : OrderOK trees.length o') (j j' : Nat) (hj : j < n) (hj' : j' < n')
+    (hcol : col j trees = col j' trees') :
+    (predictStdBatch minVar n trees o).bind (·[j]?) = (predictStdBatch minVar n' trees' o').bind (·[j']?) ∧
+    (predictDisBatch minVar n trees o).bind (·[j]?) = (predictDisBatch minVar n' trees' o').bind (·[j']?) := by
+  have hn' : trees' ≠ [] := by
+    intro h; rw [h] at hl; exact hn (List.eq_nil_of_length_eq_zero hl.symm)
+  rw [predictStdBatch_row minVar n trees o o hn hlen ho ho j hj,
+    predictDisBatch_row minVar n trees o o hn hlen ho ho j hj,
+    predictStdBatch_row minVar n' trees' o' o hn' hlen' (hl ▸ ho') (hl ▸ ho) j' hj',
+    predictDisBatch_row minVar n' trees' o' o hn' hlen' (hl ▸ ho') (hl ▸ ho) j' hj', hcol]
+  exact ⟨rfl, rfl⟩
+
+/-- non-vacuity: 3 trees, 2 query rows, a non-identity order; row 1 is the earlier single-point example -/
+example : predictDisBatch (1/10) 2 [[(5, 1), (1, 0)], [(5, 3), (3, 2)], [(2, 0), (-1, 1/2)]] [1, 2, 0]
+    = some [⟨4, 41/30, 2⟩, ⟨1, 13/15, 8/3⟩] := by decide +kernel
+example : predictStdBatch (1/10) 2 [[(5, 1), (1, 0)], [(5, 3), (3, 2)], [(2, 0), (-1, 1/2)]] [2, 0, 1]
+    = some [⟨4, 41/30 + 2⟩, ⟨1, 13/15 + 8/3⟩] := by decide +kernel
+example : col 1 [[(5, 1), (1, 0)], [(5, 3), (3, 2)], [(2, 0), (-1, (1:Rat)/2)]]
+    = [((1 : Rat), (0 : Rat)), (3, 2), (-1, 1/2)] := by decide +kernel
+
+/-- **C18 (where the `min_variance` floor sits).**  The floor is applied to each tree's leaf variance
+*before* averaging (and before `mean_t²` is added).  Hence, for every forest and every `min_variance`:
+the aleatoric and the total variance are at least `min_variance`; the aleatoric part is at least the
+plain average of the leaf variances and at least the floored average (`max(avg, min_variance)` — the
+value a floor applied *after* averaging would give; strictly larger in the example below); it is
+monotone in `min_variance`; it equals `min_variance` when no leaf variance exceeds it and the plain
+average when none is below it.  The epistemic part does not see the floor at all (`C18_dacq_epistemic`). -/
+theorem C18_floor (minVar : Rat) (trees : List TreeOut) (o₁ o₂ : List Nat) (hn : trees ≠ [])
+    (h₁ : OrderOK trees.length o₁) (h₂ : OrderOK trees.length o₂) :
+    ∃ s d, predictStd minVar trees o₁ = some s ∧ predictDis minVar trees o₂ = some d ∧
+      minVar ≤ d.al ∧ minVar ≤ s.var ∧ rmax (rawAl trees) minVar ≤ d.al ∧
+      (∀ m', minVar ≤ m' → ∀ d', predictDis m' trees o₂ = some d' → d.al ≤ d'.al ∧ d.ep = d'.ep) ∧
+      ((∀ t ∈ trees, t.2 ≤ minVar) → 0 ≤ minVar → d.al = minVar) ∧
+      ((∀ t ∈ trees, minVar ≤ t.2) → 0 ≤ minVar → d.al = rawAl trees) := by
+  have he := specEp_nonneg trees hn
+  have hm := minVar_le_specAl minVar trees hn
+  have hr := rawAl_le_specAl minVar trees hn
+  have hc : specAl minVar trees ≤ clamp0 (specAl minVar trees) := by unfold clamp0; split <;> linarith
+  refine ⟨_, _, predictStd_eq minVar trees o₁ hn h₁, predictDis_eq minVar trees o₂ hn h₂, ?_, ?_, ?_, ?_, ?_, ?_⟩
+  · exact le_trans hm hc
+  · have := le_rmax_left (specAl minVar trees + specEp trees) 0
+    show minVar ≤ rmax (specAl minVar trees + specEp trees) 0
+    linarith
+  · show rmax (rawAl trees) minVar ≤ clamp0 (specAl minVar trees)
+    unfold rmax; split <;> linarith
+  · intro m' hm' d' hd'
+    rw [predictDis_eq m' trees o₂ hn h₂] at hd'
+    cases hd'
+    refine ⟨?_, rfl⟩
+    show clamp0 (specAl minVar trees) ≤ clamp0 (specAl m' trees)
+    have := specAl_mono trees hm'
+    unfold clamp0; split <;> split <;> linarith
+  · intro hall h0
+    show clamp0 (specAl minVar trees) = minVar
+    rw [specAl_of_all_le minVar trees hn hall, clamp0_of_nonneg h0]
+  · intro hall h0
+    show clamp0 (specAl minVar trees) = rawAl trees
+    rw [specAl_of_all_ge minVar trees hall]
+    apply clamp0_of_nonneg
+    rw [← specAl_of_all_ge minVar trees hall]
+    linarith
+
+/-- the placement matters: one pure leaf and one leaf of variance 2, floor 1.  The code's aleatoric
+variance is `(max 0 1 + max 2 1)/2 = 3/2`; flooring the average would give `max ((0+2)/2) 1 = 1`. -/
+example : predictDis 1 [(0, 0), (0, 2)] [0, 1] = some ⟨0, 3/2, 0⟩ ∧ rmax (rawAl [(0, 0), (0, 2)]) 1 = 1 := by
+  decide +kernel
+
+/-- **C18 (the `d` acquisitions read the epistemic part only).**  On a surrogate whose `predict` has
+the `disentangled_std` parameter (both forests), `LCBd / EId / PId / MESd` are computed from the mean
+and the **epistemic** variance: the variance of the tree means — a function of the tree *means* alone:
+leaf variances and `min_variance` do not enter (two forests with the same tree means get the same
+moments).  The plain variants, and the `d` variants on a surrogate without that parameter, read the
+total variance `aleatoric + epistemic`. -/
+theorem C18_dacq_epistemic (minVar : Rat) (trees : List TreeOut) (order : List Nat) (hn : trees ≠ [])
+    (ho : OrderOK trees.length order) :
+    acqMoments true true minVar trees order = some (specMean trees, specEp trees) ∧
+    (∀ minVar' trees' order', trees'.map (·.1) = trees.map (·.1) → OrderOK trees'.length order' →
+      acqMoments true true minVar' trees' order' = acqMoments true true minVar trees order) := by
+  have hmain : ∀ (mv : Rat) (ts : List TreeOut) (o : List Nat), ts ≠ [] → OrderOK ts.length o →
+      acqMoments true true mv ts o = some (specMean ts, specEp ts) := by
+    intro mv ts o hts hoo
+    simp only [acqMoments, Bool.and_self, if_true, predictDis_eq mv ts o hts hoo, Option.map_some]
+    rw [clamp0_of_nonneg (specEp_nonneg ts hts)]
+  refine ⟨hmain minVar trees order hn ho, ?_⟩
+  intro mv' ts' o' hmap ho'
+  have hts' : ts' ≠ [] := by
+    intro h; rw [h] at hmap; exact hn (List.map_eq_nil_iff.1 hmap.symm)
+  have hlen : ts'.length = trees.length := by
+    have := congrArg List.length hmap; simpa using this
+  rw [hmain mv' ts' o' hts' ho', hmain minVar trees order hn ho]
+  have e1 : specMean ts' = specMean trees := by
+    unfold specMean; rw [hmap, hlen]
+  have e2 : specEp ts' = specEp trees := by
+    have hsq : ts'.map (fun t => t.1 * t.1) = trees.map (fun t => t.1 * t.1) := by
+      have := congrArg (List.map (fun x : Rat => x * x)) hmap
+      simpa [List.map_map, Function.comp_def] using this
+    unfold specEp; rw [hsq, hlen, e1]
+  rw [e1, e2]
+
+theorem C18_acq_total (minVar : Rat) (trees : List TreeOut) (order : List Nat) (hn : trees ≠ [])
+    (ho : OrderOK trees.length order) (hv : ∀ t ∈ trees, 0 ≤ rmax t.2 minVar) (hasDis : Bool) :
+    acqMoments false hasDis minVar trees order
+      = some (specMean trees, specAl minVar trees + specEp trees) ∧
+    acqMoments true false minVar trees order
+      = some (specMean trees, specAl minVar trees + specEp trees) := by
+  have ha := specAl_nonneg minVar trees hv
+  have he := specEp_nonneg trees hn
+  have hpos : 0 ≤ specAl minVar trees + specEp trees := by linarith
+  constructor <;>
+    simp [acqMoments, predictStd_eq minVar trees order hn ho, rmax0_of_nonneg hpos]
+
+/-- the `d` variants never see more uncertainty than the plain ones (same mean, variance smaller by
+exactly the aleatoric part), so with a monotone root and `kappa ≥ 0` (or `"inf"`): `LCB ≤ LCBd` -/
+theorem C18_lcbd_ge_lcb (root : Rat → Rat) (hroot : ∀ a b, a ≤ b → root a ≤ root b)
+    (kappa : Option Rat) (hk : ∀ k, kappa = some k → 0 ≤ k)
+    (minVar : Rat) (trees : List TreeOut) (order : List Nat) (hn : trees ≠ [])
+    (ho : OrderOK trees.length order) (hv : ∀ t ∈ trees, 0 ≤ rmax t.2 minVar) :
+    ∃ p d, acqMoments false true minVar trees order = some p ∧
+      acqMoments true true minVar trees order = some d ∧
+      p.1 = d.1 ∧ p.2 = d.2 + specAl minVar trees ∧ d.2 ≤ p.2 ∧ lcb root kappa p ≤ lcb root kappa d := by
+  have ha := specAl_nonneg minVar trees hv
+  refine ⟨_, _, (C18_acq_total minVar trees order hn ho hv true).1,
+    (C18_dacq_epistemic minVar trees order hn ho).1, rfl, by simp only []; ring, by simp only []; linarith, ?_⟩
+  have hr := hroot (specEp trees) (specAl minVar trees + specEp trees) (by linarith)
+  cases kappa with
+  | none => simp only [lcb]; linarith
+  | some k =>
+    have h0 := hk k rfl
+    simp only [lcb]
+    have := mul_le_mul_of_nonneg_left hr h0
+    linarith
+
+/-- non-vacuity: the same three trees; `LCBd` sees `8/3`, `LCB` sees `13/15 + 8/3`; changing the leaf
+variances and the floor changes only the latter -/
+example : acqMoments true true (1/10) [(1, 0), (3, 2), (-1, 1/2)] [2, 0, 1] = some (1, 8/3) ∧
+    acqMoments true true 7 [(1, 5), (3, 0), (-1, 9)] [0, 1, 2] = some (1, 8/3) ∧
+    acqMoments false true (1/10) [(1, 0), (3, 2), (-1, 1/2)] [2, 0, 1] = some (1, 13/15 + 8/3) ∧
+    acqMoments true false (1/10) [(1, 0), (3, 2), (-1, 1/2)] [2, 0, 1] = some (1, 13/15 + 8/3) := by
+  decide +kernel
+example : lcb (fun v => v) none ((1 : Rat), (4 : Rat)) = -4 ∧ lcb (fun v => v) (some 2) (1, 4) = -7 := by
+  decide +kernel
+
 end DH.Forest
